@@ -86,7 +86,7 @@ def build_tree(rng, root):
     failing access must not be mistaken for 'absent')."""
     classes = []
     r = rng.random()
-    if r < 0.3:
+    if r < 0.25:
         classes = ['stray']
     elif r < 0.4:
         # a stray FIFO or UNIX socket: a failing access must not make it "absent"
